@@ -262,6 +262,7 @@ class H:
         if cp is None:
             return None
         snap, objs, pool = cp
+        self.w.reclaim_gens()       # back to a pool of freshly constructed individuals: a new run, as in reset()
         self.w.restore(snap)
         w = self.w
         w.steps = 0
